@@ -22,8 +22,9 @@ RULE = (
     "{scipy, minuit} x do_stitch x do_grad x backend. A case = (model, data, mask, configuration); non-trivial when >=3 free "
     "parameters, or an optimum on a bound, or a fixed nuisance at a non-default value; closed-form cases counted too. Two "
     "models per shard are also fitted through pyhf's unwrapped functions with every combination of the optional returns "
-    "(objective value, result object, and for MINUIT uncertainties and correlations): same point, honest objective, "
-    "fixed parameters with zero uncertainty."
+    "(objective value, result object, and for MINUIT uncertainties and correlations): whatever extras are asked for, the "
+    "returned point obeys bounds and fixed values, the reported objective (and the result object) is twice the NLL at it, "
+    "and it is not worse than the point of the plain call."
 )
 ASSUMPTIONS = [
     "global optimality is only refutable: an adversarial search (4-start L-BFGS-B + Nelder-Mead polish) must fail to beat the fit by more than 1e-4 (SciPy) / 2e-2 (MINUIT at its default tolerance 0.1; largest gap on clean code 1.3e-3) in 2NLL",
@@ -375,8 +376,9 @@ def check_nested(case, shard, mon):
 
 
 def check_return_options(case, shard, rng):
-    """The fit's optional returns (objective value, result object, uncertainties, correlations) are the same fit:
-    the parameter column, the objective and the fixed values must not depend on which extras were asked for.
+    """The fit's optional returns (objective value, result object, uncertainties, correlations): the clauses of the
+    property (bounds, fixed values, honest objective, optimality) hold for the point returned under every combination.
+    Uncertainties and correlations themselves are not part of the property and are not judged.
     Runs on the UNWRAPPED pyhf functions (before the passive fit monitor, which reassembles tuples itself, is installed)."""
     import numpy as np
     import pyhf
@@ -428,37 +430,40 @@ def check_return_options(case, shard, rng):
                 if x.shape != (cfg.npars, 2):
                     probs.append(f"{sorted(combo)}: parameter block has shape {x.shape}, expected {(cfg.npars, 2)}")
                     continue
-                unc, x = x[:, 1], x[:, 0]
-                if not np.all(np.isfinite(unc)) or np.any(unc < 0):
-                    probs.append(f"{sorted(combo)}: uncertainties {unc.tolist()}")
-                if any(unc[i] != 0.0 for i, f in enumerate(fixed) if f):
-                    probs.append(f"{sorted(combo)}: non-zero uncertainty on a fixed parameter: {unc.tolist()} fixed={fixed}")
-            if x.shape != base.shape or not np.array_equal(x, base):
-                probs.append(f"{sorted(combo)}: parameters {x.tolist()} differ from those of the plain call {base.tolist()}")
+                x = x[:, 0]
+            if x.shape != (cfg.npars,):
+                probs.append(f"{sorted(combo)}: parameters have shape {x.shape}, expected {(cfg.npars,)}")
                 continue
+            # the property's own clauses on the point this call returned
+            if any(not (lo - 1e-12 * (hi - lo + 1) <= v <= hi + 1e-12 * (hi - lo + 1)) for v, (lo, hi) in zip(x, bounds)):
+                probs.append(f"{sorted(combo)}: returned point {x.tolist()} leaves the bounds")
+            if any(float(x[i]) != float(init[i]) for i, f in enumerate(fixed) if f):
+                probs.append(f"{sorted(combo)}: a fixed parameter moved: {x.tolist()} (supplied {init}, mask {fixed})")
+            here = f2(x)
+            if here - f2(base) > MARGIN[opt]:
+                probs.append(f"{sorted(combo)}: returned point is {here - f2(base):.3g} above the point of the plain call on 2NLL")
             k = 1
             if combo.get("return_correlations"):
-                corr = to_np(res[k]); k += 1
-                free = [i for i, f in enumerate(fixed) if not f]
-                if corr.shape != (cfg.npars, cfg.npars):
-                    probs.append(f"{sorted(combo)}: correlation matrix has shape {corr.shape}")
-                else:
-                    sub = corr[np.ix_(free, free)]
-                    if not (np.allclose(np.diag(sub), 1.0, atol=1e-6) and np.allclose(sub, sub.T, atol=1e-9) and np.all(np.abs(sub) <= 1 + 1e-9)):
-                        probs.append(f"{sorted(combo)}: correlation block of the free parameters is not a correlation matrix (diag {np.diag(sub).tolist()})")
-                    if any(np.any(corr[i, :] != 0) or np.any(corr[:, i] != 0) for i, f in enumerate(fixed) if f):
-                        probs.append(f"{sorted(combo)}: non-zero correlation entries for a fixed parameter")
+                k += 1
             if combo.get("return_fitted_val"):
-                val = float(to_np(res[k]).reshape(-1)[0]); k += 1
-                ref = f2(x)
-                if not abs(val - ref) <= 1e-8 * (1 + abs(ref)):
-                    probs.append(f"{sorted(combo)}: reported objective {val!r} but twice the NLL at the returned point is {ref!r}")
+                try:
+                    val = float(to_np(res[k]).reshape(-1)[0]) if np.size(to_np(res[k])) == 1 else float("nan")
+                except Exception:
+                    val = float("nan")
+                k += 1
+                if not abs(val - here) <= 1e-8 * (1 + abs(here)):
+                    probs.append(f"{sorted(combo)}: reported objective {val!r} but twice the NLL at the returned point is {here!r}")
             if combo.get("return_result_obj"):
                 obj = res[k]
-                ox = to_np(obj.x)
-                ox = ox[:, 0] if ox.ndim == 2 else ox
-                if not np.array_equal(ox, base) or not abs(float(to_np(obj.fun).reshape(-1)[0]) - f2(x)) <= 1e-8 * (1 + abs(f2(x))) or not obj.success:
-                    probs.append(f"{sorted(combo)}: result object x={ox.tolist()} fun={float(to_np(obj.fun).reshape(-1)[0])!r} success={obj.success} disagree with the returned point")
+                try:
+                    ox = to_np(obj.x)
+                    ox = ox[:, 0] if ox.ndim == 2 else ox
+                    ofun = float(to_np(obj.fun).reshape(-1)[0])
+                    okobj = np.array_equal(ox, x) and abs(ofun - here) <= 1e-8 * (1 + abs(here)) and bool(obj.success)
+                except Exception as e:
+                    okobj, ox, ofun = False, None, repr(e)
+                if not okobj:
+                    probs.append(f"{sorted(combo)}: result object (x={None if ox is None else ox.tolist()}, fun={ofun!r}) disagrees with the returned point and its objective")
         if fixed_at is not None and float(base[fixed_at[0]]) != float(fixed_at[1]):
             probs.append(f"fixed parameter {fixed_at[0]} moved from {fixed_at[1]!r} to {float(base[fixed_at[0]])!r}")
         if probs:
